@@ -21,6 +21,7 @@ pub fn def() -> CheckDef {
         assumptions: &["reference model as C01"],
         cpu_limit_s: 30,
         fault_kinds: "none (space-reuse histories)",
+        count_subruns: false,
     }
 }
 
